@@ -216,7 +216,7 @@ func genEventProps(o *Out, r *Rng, b *built) {
 	what := ""
 	v := gmsl.MustGetRoomVersion(gmsl.RoomVersion(b.ver))
 	now := b.now
-	switch r.Intn(11) {
+	switch r.Intn(15) {
 	case 0:
 		pe.Type += "x"
 		what = "type"
@@ -266,6 +266,37 @@ func genEventProps(o *Out, r *Rng, b *built) {
 	case 10:
 		pe.Redacts = "$redacted" + r.id43()
 		what = "redacts"
+	case 11, 12:
+		// a reference listed twice is a different list (the lists are hashed as given)
+		prev, _ := pe.PrevEvents.([]string)
+		auth, _ := pe.AuthEvents.([]string)
+		if r.Bool() && len(prev) > 0 {
+			pe.PrevEvents = append(append([]string{}, prev...), prev[r.Intn(len(prev))])
+			what = "prev-repeat"
+		} else if len(auth) > 0 {
+			pe.AuthEvents = append(append([]string{}, auth...), auth[r.Intn(len(auth))])
+			what = "auth-repeat"
+		} else {
+			return
+		}
+	case 13, 14:
+		// the same references in another order
+		prev, _ := pe.PrevEvents.([]string)
+		auth, _ := pe.AuthEvents.([]string)
+		swap := func(xs []string) []string {
+			ys := append([]string{}, xs...)
+			ys[0], ys[len(ys)-1] = ys[len(ys)-1], ys[0]
+			return ys
+		}
+		if r.Bool() && len(prev) > 1 && prev[0] != prev[len(prev)-1] {
+			pe.PrevEvents = swap(prev)
+			what = "prev-order"
+		} else if len(auth) > 1 && auth[0] != auth[len(auth)-1] && !(b.ver == "12" || b.ver == "org.matrix.hydra.11") {
+			pe.AuthEvents = swap(auth)
+			what = "auth-order"
+		} else {
+			return
+		}
 	}
 	p2, err := v.NewEventBuilderFromProtoEvent(&pe).Build(now, spec.ServerName(b.sg.name), b.sg.kid, b.sg.sk)
 	if err != nil {
